@@ -1,8 +1,430 @@
-//! stub — to be written
-use crate::core::{Acc, Ctx};
-use serde_json::Value;
-pub const RULE: &str = "";
-pub const ASSUMPTIONS: &[&str] = &[];
-pub fn bounds(_quick: bool) -> Value { Value::Null }
-pub fn run(_ctx: &Ctx, _acc: &mut Acc) {}
-pub fn replay(_v: &Value) -> Option<(bool, String)> { None }
+//! C10 — metadata updates never disturb the audio and are size-neutral when in place.
+//! Shape H: BFS over edit histories applied through the real `update_file`; state = the file bytes (exact,
+//! de-duplicated by content). Edits are parameterised by the *current* padding so that size deltas sweep
+//! −8..+8 around an exact fit.
+use crate::codec::{encode, Opt, Pad, Seek, Sig, WriterKind};
+use crate::core::{fnv64, guarded, hex, unhex, Acc, Ctx};
+use crate::corpus::ident_pcm;
+use crate::devices::MemDevice;
+use flac_codec::metadata::{update_file, write_blocks, Application, BlockList, Padding, Picture, PictureType, VorbisComment};
+use serde_json::{json, Value};
+use std::collections::{HashSet, VecDeque};
+use vph::refdec;
+
+pub const RULE: &str = "initial files: stereo 16-bit, 40 PCM frames, with {no, one 0-byte, one 1-byte, one 20-byte, one 100-byte, two (20+7)} padding blocks × {no comment, comment} × {no, one application block} × {seek table, none}; edit alphabet applied through update_file: grow/shrink the comment so that (new metadata size − old) = first padding size + d for every d ∈ −8..+8, shrink the comment by 1..8 bytes, remove the comment, add application blocks of 0/1/100 bytes, remove applications, add a second padding, resize the first padding to 0/1/20, remove all padding, move padding first / reverse block order, no-op, callback returning Err, and invalid lists (two 32×32 icons, two general icons, a 2^24-byte application block, padding pushed past 2^24−1 by shrinking a 16 MiB neighbour); BFS over ALL edit sequences to depth 2 (thorough 3) from every initial file with content de-duplication; per transition: audio bytes from the first frame on are identical and still decode to the same PCM; Ok(false) ⇒ file length unchanged and the blocks read back equal the edited list apart from the first padding's size; Ok(true) ⇒ rebuilt sink == write_blocks(edited list) ++ identical frames and the original is untouched; Err ⇒ original byte-for-byte untouched and nothing written to the sink";
+pub const ASSUMPTIONS: &[&str] = &["edits replace the block list with a pre-computed edited list inside the callback (equivalent to in-place mutation since BlockList is plain data)", "write_blocks/BlockList::read themselves are C11's business"];
+pub fn bounds(quick: bool) -> Value {
+    json!({"depth": if quick { 2 } else { 3 }, "size_delta": "-8..+8 around exact fit", "initial_files": 48})
+}
+
+fn ser(b: &BlockList) -> Result<Vec<u8>, String> {
+    let mut v = Vec::new();
+    write_blocks(&mut v, b.blocks()).map_err(|e| format!("{e:?}"))?;
+    Ok(v)
+}
+
+/// (type, body) list of a metadata section (own 4-byte header walk)
+fn blocks_of(bytes: &[u8]) -> Vec<(u8, Vec<u8>)> {
+    let mut v = Vec::new();
+    let mut p = 4;
+    while p + 4 <= bytes.len() {
+        let last = bytes[p] & 0x80 != 0;
+        let t = bytes[p] & 0x7F;
+        let l = ((bytes[p + 1] as usize) << 16) | ((bytes[p + 2] as usize) << 8) | bytes[p + 3] as usize;
+        if p + 4 + l > bytes.len() {
+            break;
+        }
+        v.push((t, bytes[p + 4..p + 4 + l].to_vec()));
+        p += 4 + l;
+        if last {
+            break;
+        }
+    }
+    v
+}
+
+fn first_padding(b: &BlockList) -> Option<u32> {
+    b.get::<Padding>().map(|p| u32::from(p.size))
+}
+
+pub const EDITS: &[&str] = &[
+    "fit:-8", "fit:-7", "fit:-6", "fit:-5", "fit:-4", "fit:-3", "fit:-2", "fit:-1", "fit:0", "fit:1", "fit:2", "fit:3", "fit:4", "fit:5", "fit:6", "fit:7", "fit:8",
+    "shrink:1", "shrink:2", "shrink:3", "shrink:4", "shrink:8", "shrink:100", "rm-comment", "app:0", "app:1", "app:100", "rm-app", "pad2", "pad=:0", "pad=:1", "pad=:20", "rm-pad", "pad-first", "reverse", "noop",
+    "cb-err", "two-png-icons", "two-general-icons", "app-16M", "pad-overflow",
+];
+
+/// The edited list for `edit` on `cur` (None = not applicable in this state).
+fn edited(edit: &str, cur: &BlockList) -> Option<BlockList> {
+    let (name, arg) = edit.split_once(':').unwrap_or((edit, ""));
+    let mut b = cur.clone();
+    let title_len = |b: &BlockList| b.get::<VorbisComment>().and_then(|v| v.get("TITLE").map(|s| s.len()));
+    match name {
+        "fit" => {
+            let d: i64 = arg.parse().ok()?;
+            let p = first_padding(cur)? as i64;
+            let s0 = ser(cur).ok()?.len() as i64;
+            b.update::<VorbisComment>(|v| v.set("TITLE", ""));
+            let base = ser(&b).ok()?.len() as i64;
+            let l = s0 + p + d - base;
+            if !(0..=5000).contains(&l) {
+                return None;
+            }
+            b.update::<VorbisComment>(|v| v.set("TITLE", "x".repeat(l as usize)));
+        }
+        "shrink" => {
+            let d: usize = arg.parse().ok()?;
+            let l = title_len(cur)?;
+            if l < d {
+                return None;
+            }
+            b.update::<VorbisComment>(|v| v.set("TITLE", "y".repeat(l - d)));
+        }
+        "rm-comment" => {
+            cur.get::<VorbisComment>()?;
+            b.remove::<VorbisComment>();
+        }
+        "app" => {
+            let n: usize = arg.parse().ok()?;
+            if cur.get_all::<Application>().count() >= 3 {
+                return None;
+            }
+            b.insert(Application { id: 0x74657374, data: vec![0xAB; n] });
+        }
+        "rm-app" => {
+            cur.get::<Application>()?;
+            b.remove::<Application>();
+        }
+        "pad2" => {
+            if cur.get_all::<Padding>().count() >= 3 {
+                return None;
+            }
+            b.insert(Padding { size: 5u8.into() });
+        }
+        "pad=" => {
+            let n: u32 = arg.parse().ok()?;
+            cur.get::<Padding>()?;
+            b.get_mut::<Padding>().unwrap().size = n.try_into().ok()?;
+        }
+        "rm-pad" => {
+            cur.get::<Padding>()?;
+            b.remove::<Padding>();
+        }
+        "pad-first" => b.sort_by(|t| match t { flac_codec::metadata::OptionalBlockType::Padding => 0, _ => 1 }),
+        "reverse" => b.sort_by(|t| match t { flac_codec::metadata::OptionalBlockType::Padding => 0, flac_codec::metadata::OptionalBlockType::Application => 1, flac_codec::metadata::OptionalBlockType::SeekTable => 2, _ => 3 }),
+        "noop" | "cb-err" => {}
+        "two-png-icons" | "two-general-icons" => {
+            let t = if name == "two-png-icons" { PictureType::Png32x32 } else { PictureType::GeneralFileIcon };
+            for _ in 0..2 {
+                b.insert(Picture { picture_type: t, media_type: "image/png".into(), description: String::new(), width: 32, height: 32, color_depth: 24, colors_used: None, data: vec![1, 2, 3] });
+            }
+        }
+        "app-16M" => {
+            b.insert(Application { id: 1, data: vec![0; 1 << 24] });
+        }
+        "pad-overflow" => {
+            // a 16 MiB-class neighbour shrinks: the freed bytes cannot all go into the first padding (24-bit size limit)
+            return None; // handled by the dedicated big-file scenario below
+        }
+        _ => return None,
+    }
+    Some(b)
+}
+
+#[derive(Debug)]
+pub struct StepOut {
+    pub next: Option<Vec<u8>>, // new file contents (None when the call failed)
+    pub label: String,
+}
+
+/// One transition on the real update_file + full oracle. Err((clause, detail)) = violation.
+pub fn step(file: &[u8], edit: &str) -> Result<Option<StepOut>, (String, String)> {
+    let cur = match BlockList::read(file) {
+        Ok(b) => b,
+        Err(e) => return Err(("state-unreadable".into(), format!("BlockList::read fails on a file produced by a successful update: {e:?}"))),
+    };
+    let new_list = match edited(edit, &cur) {
+        Some(b) => b,
+        None => return Ok(None),
+    };
+    let st0 = refdec::decode(file).map_err(|r| ("machinery-state-undecodable".to_string(), format!("{} {}", r.code, r.msg)))?;
+    let f0 = st0.first_frame_offset;
+    let mut dev = MemDevice::new(file.to_vec(), 0);
+    let mut sink = MemDevice::new(vec![], 0);
+    let nl = new_list.clone();
+    let cb_err = edit == "cb-err";
+    let res = guarded(|| {
+        let sink_ref = &mut sink;
+        update_file::<_, _, flac_codec::Error>(&mut dev, move || Ok(sink_ref), move |b: &mut BlockList| {
+            if cb_err {
+                return Err(flac_codec::Error::InvalidSeek);
+            }
+            *b = nl;
+            Ok(())
+        })
+    });
+    let res = match res {
+        Ok(r) => r,
+        Err(p) => return Err((format!("panic@{}", crate::core::panic_loc(&p)), format!("update_file panics: {p}"))),
+    };
+    let audio0 = &file[f0..];
+    match res {
+        Err(e) => {
+            if dev.data != file {
+                return Err(("failed-update-modified-original".into(), format!("update_file returned Err({e:?}) but the original file changed")));
+            }
+            if !sink.data.is_empty() {
+                return Err(("failed-update-wrote-to-sink".into(), format!("update_file returned Err({e:?}) but {} bytes were written to the rebuilt sink", sink.data.len())));
+            }
+            let expected_invalid = cb_err || ser(&new_list).is_err();
+            if !expected_invalid {
+                return Err(("valid-edit-refused".into(), format!("update_file refused a valid edit with {e:?}")));
+            }
+            Ok(Some(StepOut { next: None, label: format!("Err:{}", format!("{e:?}").split('(').next().unwrap()) }))
+        }
+        Ok(rebuilt) => {
+            if cb_err {
+                return Err(("callback-error-swallowed".into(), "the callback returned Err but update_file returned Ok".into()));
+            }
+            let want_meta = match ser(&new_list) {
+                Ok(m) => m,
+                Err(e) => return Err(("invalid-list-accepted".into(), format!("update_file returned Ok although write_blocks refuses the edited list: {e}"))),
+            };
+            let newfile: Vec<u8> = if rebuilt {
+                if dev.data != file {
+                    return Err(("rebuild-modified-original".into(), "update reported as rebuilt but the original was modified as well".into()));
+                }
+                let mut want = want_meta.clone();
+                want.extend_from_slice(audio0);
+                if sink.data != want {
+                    return Err(("rebuilt-file-wrong".into(), format!("rebuilt sink has {} bytes, expected edited blocks ({}) + frames ({}); first difference at {:?}", sink.data.len(), want_meta.len(), audio0.len(), sink.data.iter().zip(&want).position(|(a, b)| a != b))));
+                }
+                sink.data.clone()
+            } else {
+                if !sink.data.is_empty() {
+                    return Err(("in-place-wrote-to-sink".into(), "update reported as in place but the rebuilt sink received data".into()));
+                }
+                if dev.data.len() != file.len() {
+                    return Err(("in-place-changed-length".into(), format!("file length {} → {}", file.len(), dev.data.len())));
+                }
+                // blocks read back == edited list apart from the first padding's size
+                let got = blocks_of(&dev.data);
+                let want = blocks_of(&want_meta);
+                let mut seen_pad = false;
+                let same = got.len() == want.len()
+                    && got.iter().zip(&want).all(|(g, w)| {
+                        if g.0 == 1 && w.0 == 1 && !seen_pad {
+                            seen_pad = true;
+                            true
+                        } else {
+                            g == w
+                        }
+                    });
+                if !same {
+                    return Err(("in-place-blocks-differ".into(), format!("blocks read back {:?} differ from the edited list {:?}", got.iter().map(|x| (x.0, x.1.len())).collect::<Vec<_>>(), want.iter().map(|x| (x.0, x.1.len())).collect::<Vec<_>>())));
+                }
+                dev.data.clone()
+            };
+            // audio untouched
+            let st1 = match refdec::decode(&newfile) {
+                Ok(s) => s,
+                Err(r) => return Err(("updated-file-undecodable".into(), format!("independent decoder rejects the updated file: {} {}", r.code, r.msg))),
+            };
+            if &newfile[st1.first_frame_offset..] != audio0 {
+                return Err(("audio-bytes-changed".into(), format!("bytes from the first frame on differ (first frame now at {}, was {f0})", st1.first_frame_offset)));
+            }
+            if st1.pcm != st0.pcm {
+                return Err(("pcm-changed".into(), "the updated file decodes to different PCM".into()));
+            }
+            Ok(Some(StepOut { next: Some(newfile), label: if rebuilt { "rebuilt".into() } else { "in-place".into() } }))
+        }
+    }
+}
+
+pub fn initial_files() -> Vec<(String, Vec<u8>)> {
+    let sig = Sig { rate: 44100, bps: 16, ch: 2 };
+    let pcm = ident_pcm(2, 16, 40);
+    let mut v = Vec::new();
+    for (pn, pads) in [("nopad", vec![]), ("pad0", vec![0u32]), ("pad1", vec![1]), ("pad20", vec![20]), ("pad100", vec![100]), ("pad20+7", vec![20, 7])] {
+        for comment in [false, true] {
+            for app in [false, true] {
+                for seek in [Seek::Off, Seek::Frames(1)] {
+                    let opt = Opt { seek, pad: Pad::None, ..Opt::base16() };
+                    let base = encode(WriterKind::Sample, &opt, &sig, &pcm).expect("c10 corpus");
+                    let mut b = BlockList::read(&base[..]).unwrap();
+                    let mlen = ser(&b).unwrap().len();
+                    if comment {
+                        let mut vc = VorbisComment::default();
+                        vc.insert("TITLE", "abcdefghijkl");
+                        b.insert(vc);
+                    }
+                    if app {
+                        b.insert(Application { id: 0x61707031, data: vec![9; 10] });
+                    }
+                    for p in &pads {
+                        b.insert(Padding { size: (*p).try_into().unwrap() });
+                    }
+                    let mut out = ser(&b).unwrap();
+                    out.extend_from_slice(&base[mlen..]);
+                    v.push((format!("{pn}-{}-{}-{}", if comment { "comment" } else { "nocomment" }, if app { "app" } else { "noapp" }, if seek == Seek::Off { "noseek" } else { "seek" }), out));
+                }
+            }
+        }
+    }
+    v
+}
+
+/// dedicated scenario: first padding next to the 24-bit limit, a large neighbour shrinks
+fn big_scenarios() -> Vec<(String, Vec<u8>, BlockList)> {
+    let sig = Sig { rate: 44100, bps: 16, ch: 1 };
+    let base = encode(WriterKind::Sample, &Opt { seek: Seek::Off, pad: Pad::None, ..Opt::base16() }, &sig, &ident_pcm(1, 16, 20)).expect("c10 corpus");
+    let mut v = Vec::new();
+    for padsize in [(1u32 << 24) - 1, (1 << 24) - 5] {
+        let mut b = BlockList::read(&base[..]).unwrap();
+        let mlen = ser(&b).unwrap().len();
+        b.insert(Application { id: 7, data: vec![3; 1000] });
+        b.insert(Padding { size: padsize.try_into().unwrap() });
+        let mut file = ser(&b).unwrap();
+        file.extend_from_slice(&base[mlen..]);
+        // edit: shrink the application block by 100 bytes → padding would have to grow past 2^24-1
+        let mut nb = b.clone();
+        nb.get_mut::<Application>().unwrap().data.truncate(900);
+        v.push((format!("pad-overflow-{padsize}"), file, nb));
+    }
+    v
+}
+
+pub fn run(ctx: &Ctx, acc: &mut Acc) {
+    let depth = if ctx.quick { 2 } else { 3 };
+    for (name, file) in initial_files() {
+        if !ctx.mine() {
+            continue;
+        }
+        // BFS with content de-duplication
+        let mut seen: HashSet<u64> = HashSet::new();
+        let mut frontier: VecDeque<(Vec<u8>, Vec<String>)> = VecDeque::new();
+        seen.insert(fnv64(&file));
+        frontier.push_back((file.clone(), vec![]));
+        acc.states += 1;
+        while let Some((cur, hist)) = frontier.pop_front() {
+            for edit in EDITS {
+                let r = step(&cur, edit);
+                match r {
+                    Ok(None) => {}
+                    Ok(Some(out)) => {
+                        acc.transitions += 1;
+                        acc.executions += 1;
+                        acc.outcome(format!("{}:{}", edit.split(':').next().unwrap(), out.label));
+                        if let Some(nf) = out.next {
+                            if hist.len() + 1 < depth && seen.insert(fnv64(&nf)) {
+                                acc.states += 1;
+                                let mut h = hist.clone();
+                                h.push(edit.to_string());
+                                frontier.push_back((nf, h));
+                            }
+                        }
+                    }
+                    Err((clause, detail)) => {
+                        acc.transitions += 1;
+                        acc.executions += 1;
+                        acc.outcome(format!("{}:VIOLATION", edit.split(':').next().unwrap()));
+                        let mut h = hist.clone();
+                        h.push(edit.to_string());
+                        acc.violation(format!("C10|{}|{clause}", edit.split(':').next().unwrap()), format!("file {name}, edit history {h:?}: {detail}"), json!({"kind":"edit-history","initial":name,"edits":h}));
+                    }
+                }
+            }
+        }
+        if acc.samples.len() < 3 {
+            acc.sample(json!({"initial": name, "edits": ["fit:0", "shrink:3"], "states_from_this_file": seen.len()}));
+        }
+    }
+    for (name, file, nb) in big_scenarios() {
+        if !ctx.mine() {
+            continue;
+        }
+        acc.states += 1;
+        acc.executions += 1;
+        acc.transitions += 1;
+        let r = big_step(&file, &nb);
+        match r {
+            Ok(l) => acc.outcome(format!("big:{l}")),
+            Err((c, d)) => acc.violation(format!("C10|pad-overflow|{c}"), format!("{name}: {d}"), json!({"kind":"edit-big","name":name})),
+        }
+    }
+}
+
+fn big_step(file: &[u8], nb: &BlockList) -> Result<String, (String, String)> {
+    let mut dev = MemDevice::new(file.to_vec(), 0);
+    let mut sink = MemDevice::new(vec![], 0);
+    let nl = nb.clone();
+    let res = guarded(|| {
+        let s = &mut sink;
+        update_file::<_, _, flac_codec::Error>(&mut dev, move || Ok(s), move |b: &mut BlockList| {
+            *b = nl;
+            Ok(())
+        })
+    })
+    .map_err(|p| (format!("panic@{}", crate::core::panic_loc(&p)), p))?;
+    let f0 = refdec::decode(file).map_err(|r| ("machinery".to_string(), r.msg))?.first_frame_offset;
+    match res {
+        Ok(false) => {
+            if dev.data.len() != file.len() || dev.data[f0..] != file[f0..] {
+                return Err(("in-place-changed-length-or-audio".into(), format!("length {} → {}", file.len(), dev.data.len())));
+            }
+            BlockList::read(&dev.data[..]).map_err(|e| ("in-place-result-unreadable".to_string(), format!("{e:?}")))?;
+            Ok("in-place".into())
+        }
+        Ok(true) => {
+            let mut want = ser(nb).map_err(|e| ("machinery".to_string(), e))?;
+            want.extend_from_slice(&file[f0..]);
+            if sink.data != want {
+                return Err(("rebuilt-file-wrong".into(), format!("sink {} bytes, expected {}", sink.data.len(), want.len())));
+            }
+            Ok("rebuilt".into())
+        }
+        Err(e) => {
+            if dev.data != file || !sink.data.is_empty() {
+                return Err(("failed-update-modified-file".into(), format!("{e:?}")));
+            }
+            Err(("valid-edit-refused".into(), format!("{e:?}")))
+        }
+    }
+}
+
+pub fn replay(v: &Value) -> Option<(bool, String)> {
+    match v["kind"].as_str()? {
+        "edit-history" => {
+            let name = v["initial"].as_str()?;
+            let mut cur = initial_files().into_iter().find(|f| f.0 == name)?.1;
+            let edits: Vec<String> = v["edits"].as_array()?.iter().map(|e| e.as_str().unwrap_or("").to_string()).collect();
+            let mut log = Vec::new();
+            for e in &edits {
+                match step(&cur, e) {
+                    Ok(None) => log.push(format!("{e}: n/a")),
+                    Ok(Some(o)) => {
+                        log.push(format!("{e}: {}", o.label));
+                        if let Some(n) = o.next {
+                            cur = n;
+                        }
+                    }
+                    Err((c, d)) => {
+                        log.push(format!("{e}: VIOLATION {c}: {d}"));
+                        return Some((true, log.join("\n")));
+                    }
+                }
+            }
+            Some((false, log.join("\n")))
+        }
+        "edit-big" => {
+            let name = v["name"].as_str()?;
+            let (_, file, nb) = big_scenarios().into_iter().find(|s| s.0 == name)?;
+            let r = big_step(&file, &nb);
+            Some((r.is_err(), format!("{r:?}")))
+        }
+        _ => None,
+    }
+}
+#[allow(dead_code)]
+fn _u() {
+    let _ = (hex(&[]), unhex(""));
+}
